@@ -58,6 +58,7 @@ struct Case {
   bool tearing_down = false;
   bool violated = false;
   uint64_t timeout_ms = 300000;
+  uint64_t last_del_t = 0;
   unsigned max_idle = 0;
   size_t trace_pos = 0;
   coap_resource_t *obs_res = nullptr;
@@ -185,7 +186,8 @@ int event_handler(coap_session_t *session, const coap_event_t event) {
       G->pending_del = false;
     } else {
       explain_pending_del(false);
-      if (G->max_idle > 0 && idle >= G->max_idle) fail("new peer %s arrived with %u certainly idle sessions (limit %u) and no idle session was evicted", k.str().c_str(), idle, G->max_idle);
+      // (clock moving inside calls: a session deleted in the last moments may have been this eviction although its timeout had also just passed)
+      if (G->max_idle > 0 && idle >= G->max_idle && !(w.creep_every && G->last_del_t + 50 >= w.now)) fail("new peer %s arrived with %u certainly idle sessions (limit %u) and no idle session was evicted", k.str().c_str(), idle, G->max_idle);
     }
     SModel m;
     m.key = k;
@@ -199,11 +201,14 @@ int event_handler(coap_session_t *session, const coap_event_t event) {
     if (it == G->live.end()) { fail("SERVER_SESSION_DEL for session %p that is not live (never announced or already deleted)", (void *)session); return 0; }
     SModel &m = it->second;
     explain_pending_del(false);
+    G->last_del_t = w.now;
     w.callback("DEL " + m.key.str());
     if (!G->tearing_down) {
       if (m.app_refs > 0) fail("session %s deleted while the application holds %d reference(s)", m.key.str().c_str(), m.app_refs);
       else if (m.async_pending > 0) fail("session %s deleted while an async entry refers to it", m.key.str().c_str());
-      else if (w.now >= m.last_activity + G->timeout_ms) G->reclaimed++;
+      // (when the clock moves on inside calls the harness and libcoap stamp the same event up to the length of one call apart: 50 ms is far
+      //  above what a call takes here, far below every session timeout)
+      else if (w.now + (w.creep_every ? 50 : 0) >= m.last_activity + G->timeout_ms) G->reclaimed++;
       else {
         // only idle-limit eviction explains this; decided when we see whether a NEW follows within the same datagram
         char b[200];
@@ -456,6 +461,9 @@ int verif_case(const uint8_t *tape, size_t tlen, Info *info) {
   else {
     World w;
     cs.w = &w;
+    // (second last tape byte) the clock moves on while libcoap works: every 2nd..14th reading finds it a millisecond later, so that a time stamp taken
+    // inside a call can lie after the 'now' the caller passed in
+    if (tlen >= 48 && tape[tlen - 2] < 80) { w.creep_every = 2 + tape[tlen - 2] % 13; info->label("clock-advances-inside-calls"); }
     seed_prng(t.u16());
     // ---- configuration ----
     unsigned to_s = 0;
